@@ -45,7 +45,7 @@ def _lens(l):
 
 def write_layer():
     common = dict(harness="h_c16.c", units=["src/misc.c"], models=["c16_io.c", "c16_stubs.c"], unwind=12,
-                  unwindset={"c16_append.0": 66, "write_fd.0": 13, "xopen.0": 12, "xclose.0": 12, "strlen.0": 8, "strcpy.0": 4, "strdup.0": 4},
+                  unwindset={"c16_append.0": 18, "write_fd.0": 13, "xopen.0": 12, "xclose.0": 12, "strlen.0": 8, "strcpy.0": 4, "strdup.0": 4},
                   stubs=IO_STUBS + ["realloc/malloc/free = CBMC built-in models (fresh exact-size object per allocation, --no-malloc-may-fail)"],
                   vin_size=64)
     LA, LB = (2, 1, 0, 3), (0, 3, 1, 1)
@@ -135,18 +135,41 @@ def text_output():
 
 def rendering():
     known = {} if STRICT else {"KNOWN_C16_CUT_WIDE": 1}
-    common = dict(harness="h_c16_gfx.c", func="h_c16_gfx", units=["src/export.c", "src/misc.c"], models=["c16_stubs.c"], unwind=3400, vin_size=320,
+    # the row loop of draw_char runs to `ch' which is 10/26 or half of it depending on the (symbolic) size attribute: symex cannot decide the exit
+    # test and would unwind to the global bound; explicit bounds for every loop of the renderer (unwinding assertions prove them sufficient)
+    gus = {"draw_char.4": 27, "draw_char.0": 17, "draw_char.1": 17, "draw_char.2": 33, "draw_char.3": 33,
+           "draw_blank.0": 13, "draw_blank.1": 11, "unicode_wstfont2.0": 42, "unicode_ccfont2.0": 27,
+           "vbi_draw_vt_page_region.2": 41, "vbi_draw_vt_page_region.3": 3, "vbi_draw_vt_page_region.4": 3,
+           "vbi_draw_cc_page_region.2": 3, "vbi_draw_cc_page_region.3": 3}
+    for k in range(8):
+        gus["draw_drcs.%d" % k] = 13
+    common = dict(harness="h_c16_gfx.c", func="h_c16_gfx", units=["src/export.c", "src/misc.c"], models=["c16_stubs.c"], unwind=3400, unwindset=gus, vin_size=320,
                   stubs=["font bitmaps wstfont2/ccfont2 and the DRCS bitmap: arbitrary contents (havoc'ed; native replay uses the real tables)",
                          "exp-gfx.c compiled without HAVE_LIBPNG (PNG export outside the claim)", "models/c16_stubs.c: export module classes (unreached)"],
                   assumes=["page invariants by construction: colour indices < 40, vbi_size <= DOUBLE_SIZE2, DRCS code points U+F000..F7FF with glyph < 48, "
                            "drcs[] NULL or 48x60 bytes, drcs_clut NULL or 64 entries < 40, drcs_clut_offs <= 48; region inside the 3x2 page (caller's duty: "
                            "the functions do not validate)"] +
                           ([] if STRICT else ["KNOWN_C16_CUT_WIDE (known finding): the last cell of a region row is not DOUBLE_WIDTH/DOUBLE_SIZE/DOUBLE_SIZE2"]))
-    vt_full = [dict(CC=0, RW=w, RH=h, FMT=f, RSX=x) for (w, h) in ((1, 1), (2, 1), (1, 2)) for f in (32, 5) for x in (0, 1, 5, -1)] + \
-              [dict(CC=0, RW=1, RH=1, FMT=1, RSX=0), dict(CC=0, RW=2, RH=1, FMT=1, RSX=3)]
-    vt_quick = [dict(CC=0, RW=1, RH=1, FMT=32, RSX=0), dict(CC=0, RW=1, RH=1, FMT=5, RSX=1), dict(CC=0, RW=2, RH=1, FMT=32, RSX=4),
-                dict(CC=0, RW=2, RH=1, FMT=5, RSX=0), dict(CC=0, RW=1, RH=2, FMT=5, RSX=-1), dict(CC=0, RW=1, RH=1, FMT=1, RSX=0)]
-    cc_full = [dict(CC=1, RW=w, RH=1, FMT=f, RSX=x) for w in (1, 2) for f in (32, 5) for x in (0, 3, -1)] + [dict(CC=1, RW=1, RH=1, FMT=1, RSX=0)]
+    # RSX = extra bytes per canvas row (-1: rowstride argument -1); whole pixels for the 4-byte formats.
+    # RGBA: case split over the size attribute of the first/second cell and DRCS-or-character (see the harness); PAL8: everything symbolic at once
+    def rgba(w, h, x, quick=False):
+        out = []
+        for s0 in range(8):
+            wide = s0 in (1, 3, 7)
+            s1s = (4,) if (wide and w == 2) else (0,) if w == 1 else (0, 2)
+            for s1 in s1s:
+                for d in (0, 1):
+                    out.append(dict(CC=0, RW=w, RH=h, FMT=32, RSX=x, SIZE0=s0, SIZE1=s1, DRCS=d))
+        return out
+    vt_full = rgba(1, 1, 0) + rgba(1, 1, 4) + rgba(2, 1, 0) + rgba(2, 1, 8) + rgba(1, 2, -1) + \
+              [dict(CC=0, RW=w, RH=h, FMT=5, RSX=x) for (w, h) in ((1, 1), (2, 1), (1, 2)) for x in (0, 1, 5, -1)] + \
+              [dict(CC=0, RW=1, RH=1, FMT=1, RSX=0), dict(CC=0, RW=2, RH=1, FMT=1, RSX=4)]
+    vt_quick = [dict(CC=0, RW=1, RH=1, FMT=32, RSX=0, SIZE0=0, SIZE1=0, DRCS=0), dict(CC=0, RW=1, RH=1, FMT=32, RSX=4, SIZE0=6, SIZE1=0, DRCS=1),
+                dict(CC=0, RW=2, RH=1, FMT=32, RSX=0, SIZE0=3, SIZE1=4, DRCS=0), dict(CC=0, RW=2, RH=1, FMT=32, RSX=8, SIZE0=1, SIZE1=4, DRCS=1),
+                dict(CC=0, RW=1, RH=1, FMT=5, RSX=1), dict(CC=0, RW=2, RH=1, FMT=5, RSX=0), dict(CC=0, RW=1, RH=2, FMT=5, RSX=-1),
+                dict(CC=0, RW=1, RH=1, FMT=1, RSX=0)]
+    cc_full = [dict(CC=1, RW=w, RH=1, FMT=32, RSX=x) for w in (1, 2) for x in (0, 4, -1)] + [dict(CC=1, RW=w, RH=1, FMT=5, RSX=x) for w in (1, 2) for x in (0, 3, -1)] + \
+              [dict(CC=1, RW=1, RH=1, FMT=1, RSX=0)]
     cc_quick = [dict(CC=1, RW=1, RH=1, FMT=32, RSX=0), dict(CC=1, RW=2, RH=1, FMT=5, RSX=3), dict(CC=1, RW=1, RH=1, FMT=1, RSX=0)]
     text = ("into a canvas that is an exact-size object of the documented size rowstride x rows x cell height: every access inside canvas/page/font/pen objects, "
             "guard bytes between the pixel rows of the rectangle keep their (symbolic) fill value, unsupported pixel format (YUV420) leaves the canvas untouched, "
@@ -154,12 +177,12 @@ def rendering():
     return [
         Ob("draw_vt_region", desc="vbi_draw_vt_page_region, RW x RH cells at a symbolic position of a 3x2 page, cells/colour map/DRCS clut/reveal/flash symbolic, " + text,
            encodes=["vbi_draw_vt_page_region", "draw_char", "draw_drcs", "draw_blank", "unicode_wstfont2"], defines=dict(C16_HAVE_GFX=1, **known),
-           bounds="regions 1x1, 2x1, 1x2; pixel formats RGBA32_LE, PAL8, YUV420; rowstride = rectangle width + {0,1,4,5} bytes or -1 (page width)",
+           bounds="regions 1x1, 2x1, 1x2; pixel formats RGBA32_LE, PAL8, YUV420; rowstride = rectangle width + {0,4,8} (RGBA) / {0,1,5} (PAL8) bytes or -1 (page width)",
            outside="'same pixels as the full-page rendering' (only pen colours per cell are checked); glyph shapes; regions larger than 2 cells",
            grid=vt_full, quick_grid=vt_quick, reach=["end"], timeout=600, mem_gb=4, **common),
         Ob("draw_cc_region", desc="vbi_draw_cc_page_region, RW x 1 cells at a symbolic position of a 3x2 page, cells and colour map symbolic, " + text,
            encodes=["vbi_draw_cc_page_region", "draw_char", "unicode_ccfont2"], defines=dict(C16_HAVE_GFX=1),
-           bounds="regions 1x1, 2x1 (16x26 pixel cells); pixel formats RGBA32_LE, PAL8, YUV420; rowstride = rectangle width + {0,3} bytes or -1",
+           bounds="regions 1x1, 2x1 (16x26 pixel cells); pixel formats RGBA32_LE, PAL8, YUV420; rowstride = rectangle width + {0,4} (RGBA) / {0,3} (PAL8) bytes or -1",
            outside="glyph shapes; larger regions", grid=cc_full, quick_grid=cc_quick, reach=["end"], timeout=600, mem_gb=4, **common),
     ]
 
